@@ -438,3 +438,20 @@ impl CompressionCodec for XzCodec {
         Ok(Box::new(XzEncoder::new(writer, 6)))
     }
 }
+
+/// Verification hook: the (name, extensions, magic bytes) of every codec in the running registry,
+/// in registry (= detection) order.
+#[cfg(feature = "verif-hooks")]
+#[must_use]
+pub fn verif_codec_table() -> Vec<(String, Vec<String>, Option<Vec<u8>>)> {
+    get_registry()
+        .iter()
+        .map(|c| {
+            (
+                c.name().to_string(),
+                c.extensions().iter().map(|e| (*e).to_string()).collect(),
+                c.magic_bytes().map(<[u8]>::to_vec),
+            )
+        })
+        .collect()
+}
